@@ -470,13 +470,13 @@ func vfTruncB(b []byte, n int) []byte {
 }
 
 type vfWOp struct {
-	M       string `json:"m"`
-	Sid     uint32 `json:"sid"`
-	ES      bool   `json:"es"`
-	EH      bool   `json:"eh"`
-	N       int    `json:"n"`
-	Pad     int    `json:"pad"`
-	Prio    *struct {
+	M    string `json:"m"`
+	Sid  uint32 `json:"sid"`
+	ES   bool   `json:"es"`
+	EH   bool   `json:"eh"`
+	N    int    `json:"n"`
+	Pad  int    `json:"pad"`
+	Prio *struct {
 		Dep  uint32 `json:"dep"`
 		Excl bool   `json:"excl"`
 		W    uint8  `json:"w"`
